@@ -54,10 +54,23 @@ def apply_impl(t, h, op):
             "state": charts.config_of(h)}
 
 
+SAME = {}        # one Event object per signal, reused by the *_same operations (a client that keeps sending one object)
+
+
+def same_ev(name):
+    if name not in SAME:
+        SAME[name] = ev(name)
+    return SAME[name]
+
+
 def _apply_impl(h, op):
     kind = op[0]
     ret = None
-    if kind == "post_fifo":
+    if kind == "defer_same":
+        h.defer(same_ev(op[1]))
+    elif kind == "post_same":
+        h.post_fifo(same_ev(op[1]))
+    elif kind == "post_fifo":
         h.post_fifo(ev(op[1]))
     elif kind == "post_lifo":
         h.post_lifo(ev(op[1]))
@@ -118,7 +131,11 @@ def apply_ref(q, dq, op):
 def _apply_ref(q, dq, op, disp):
     kind = op[0]
     ret = None
-    if kind == "post_fifo":
+    if kind == "defer_same":
+        dq.append(op[1])
+    elif kind == "post_same":
+        q.append(op[1])
+    elif kind == "post_fifo":
         q.append(op[1])
     elif kind == "post_lifo":
         q.insert(0, op[1])
